@@ -39,6 +39,7 @@ const (
 type Conn struct {
 	st          mc.Obj
 	name        string
+	Shown       string // address reported by LocalAddr / by the peer's RemoteAddr instead of name
 	in, out     *half
 	localClosed bool
 	peer        *Conn
@@ -200,8 +201,17 @@ func (c *Conn) CloseWrite() error {
 	return nil
 }
 
-func (c *Conn) LocalAddr() net.Addr                { return addr(c.name) }
-func (c *Conn) RemoteAddr() net.Addr               { return addr(c.peer.name) }
+func (c *Conn) LocalAddr() net.Addr                { return addr(c.shownName()) }
+func (c *Conn) RemoteAddr() net.Addr               { return addr(c.peer.shownName()) }
+
+// shownName is the address the connection reports: its unique name, or Shown when set (connections of a unix
+// socket or of an in-memory listener all report the same address).
+func (c *Conn) shownName() string {
+	if c.Shown != "" {
+		return c.Shown
+	}
+	return c.name
+}
 func (c *Conn) SetDeadline(t time.Time) error      { return nil }
 func (c *Conn) SetReadDeadline(t time.Time) error  { return nil }
 func (c *Conn) SetWriteDeadline(t time.Time) error { return nil }
@@ -214,6 +224,8 @@ type Listener struct {
 	n      int
 	// CloseErr, if set, is what Close returns (the listener is closed all the same), e.g. a socket file that cannot be removed
 	CloseErr error
+	// SameAddr: every connection reports the same local and remote address ("@"), as the connections of a unix socket do
+	SameAddr bool
 }
 
 func (l *Listener) Accept() (net.Conn, error) {
@@ -259,6 +271,9 @@ func (l *Listener) Dial(name string) *Conn {
 	}
 	l.n++
 	a, b := Pipe(name, name+"@srv", l.Cap)
+	if l.SameAddr {
+		a.Shown, b.Shown = "@", "@"
+	}
 	l.q = append(l.q, b)
 	return a
 }
